@@ -104,6 +104,3 @@ Definition spec_canon (s : str) : option str :=
   let ts := spdx_tokens s in
   if spdx_tokens_ok ts then match canon_tokens false ts with Some l => Some (tight l) | None => None end else None.
 End Tables.
-
-(* the domain of the theorems: no U+212A KELVIN SIGN (str.lower() maps it to ASCII "k": see C19_kelvin_refuted) *)
-Definition kfree (s : str) : Prop := ~ In 8490 s.
